@@ -160,12 +160,16 @@ TDecBig ==
        /\ Judge(e.canary = 1, l, e, "canaries intact")
     /\ UNCHANGED <<pk, hist>>
 
+\* events of the other families (system-level traces): stuttering steps for this specification
+Own == {"Reset", "Enc", "Dec", "Packet", "DecTag", "CheckTag", "DecBig"}
+TForeign == Tr[l].e \notin Own \cup {"Fault", "San", "Hang", "Garbled"} /\ UNCHANGED <<pk, hist>>
+
 Init == l = 1 /\ pk = NoPk /\ hist = <<>> /\ InitRegs
 
 Next ==
     /\ l <= Len(Tr)
     /\ l' = l + 1
-    /\ (TReset \/ TEnc \/ TDec \/ TPacket \/ TDecTag \/ TCheckTag \/ TDecBig)
+    /\ (TReset \/ TEnc \/ TDec \/ TPacket \/ TDecTag \/ TCheckTag \/ TDecBig \/ TForeign)
 
 Spec == Init /\ [][Next]_vars
 
